@@ -28,15 +28,30 @@ FlatLen2(P) == IF Len(CHOOSE x \in P : TRUE) = 2 /\ ~FullDim2(P) THEN SetMax({Di
 (* affine dimension of the cloud: rank of the differences to one of its points (what proj_P_for_hull reports) *)
 AffDim(P) == LET sq == SortedVecs(P)
              IN IF Len(sq) = 1 THEN 0 ELSE Rank([k \in 1..(Len(sq) - 1) |-> VSub(sq[k + 1], sq[1])])
+(* compute_mean_correlation of a 2-D cloud (each point once): mean over the 2 x 2 matrix |corrcoef| - I, i.e.   *)
+(* |r| / 2.  Exactly: (2 * value)^2 = r^2 = Cxy^2 / (Cxx * Cyy) with the N^2-scaled (co)variances below.         *)
+(* Undefined (<<-1, 1>>) when a coordinate has no variance, outside 2-D, or beyond the magnitude guard.          *)
+AbsI(x) == IF x < 0 THEN -x ELSE x
+Corr2(P) ==
+  LET sq == SortedVecs(P)
+      N == Len(sq)
+      Sx == SumTo([k \in 1..N |-> sq[k][1]], N)
+      Sy == SumTo([k \in 1..N |-> sq[k][2]], N)
+      Cxx == N * SumTo([k \in 1..N |-> sq[k][1] * sq[k][1]], N) - Sx * Sx
+      Cyy == N * SumTo([k \in 1..N |-> sq[k][2] * sq[k][2]], N) - Sy * Sy
+      Cxy == N * SumTo([k \in 1..N |-> sq[k][1] * sq[k][2]], N) - Sx * Sy
+  IN IF Len(sq[1]) # 2 \/ N > 8 \/ (\E k \in 1..N : AbsI(sq[k][1]) > 12 \/ AbsI(sq[k][2]) > 12) THEN <<-1, 1>>
+     ELSE IF Cxx = 0 \/ Cyy = 0 THEN <<-1, 1>>
+     ELSE R(Cxy * Cxy, Cxx * Cyy)
 RECURSIVE Pow(_, _)
 Pow(k, n) == IF n = 0 THEN 1 ELSE k * Pow(k, n - 1)
 (* exact facts about the current cloud: doubled 2-D area, squared length of a flat cloud, and for zonotope-derived *)
 (* clouds (no point added) the exact volume and the mean-width coefficient (width = c_d * wcoef)                 *)
-Exact0(b) == [area2 |-> Vol2(b.P), flat2 |-> FlatLen2(b.P), affdim |-> AffDim(b.P),
+Exact0(b) == [area2 |-> Vol2(b.P), flat2 |-> FlatLen2(b.P), affdim |-> AffDim(b.P), corr2 |-> Corr2(b.P),
               zvol |-> IF b.zono THEN ZonoVolume(b.G, b.lb, b.ub) ELSE -1,
               wcoef |-> IF b.zono THEN WidthCoef(b.lens, b.lb, b.ub) ELSE -1]
 ExactNext(e, a, P, d) ==
-  [area2 |-> Vol2(P), flat2 |-> FlatLen2(P), affdim |-> AffDim(P),
+  [area2 |-> Vol2(P), flat2 |-> FlatLen2(P), affdim |-> AffDim(P), corr2 |-> Corr2(P),
    zvol |-> IF e.zvol < 0 \/ a.op = "addpoint" THEN -1 ELSE IF a.op = "scale" THEN e.zvol * Pow(a.a[1], d) ELSE e.zvol,
    wcoef |-> IF e.wcoef < 0 \/ a.op = "addpoint" THEN -1 ELSE IF a.op = "scale" THEN e.wcoef * a.a[1] ELSE e.wcoef]
 Init == \E b \in Bases : cloud = b.P /\ hist = <<>> /\ meta = b /\ exact = Exact0(b)
@@ -55,6 +70,11 @@ AreaLaws == [][LET a == hist'[Len(hist')]
                     /\ (a.op \in {"translate", "signperm"} => PolyArea2(cloud') = PolyArea2(cloud))
                     /\ (a.op = "scale" => PolyArea2(cloud') = a.a[1] * a.a[1] * PolyArea2(cloud))
                     /\ (a.op = "addpoint" => PolyArea2(cloud') >= PolyArea2(cloud))]_vars
+(* the squared correlation is invariant under translation, positive scaling, permutation and sign changes of the *)
+(* coordinates (where both sides are within the magnitude guard)                                                *)
+CorrLaws == [][LET a == hist'[Len(hist')]
+               IN (a.op \in {"translate", "signperm", "scale"} /\ exact.corr2[1] >= 0 /\ exact'.corr2[1] >= 0)
+                    => exact'.corr2 = exact.corr2]_vars
 (* zonotope volume formula agrees with the hull area for the untouched 2-D zonotope bases *)
 ZonoAgrees == (hist = <<>> /\ meta.zono /\ meta.d = 2) => PolyArea2(cloud) = 2 * ZonoVolume(meta.G, meta.lb, meta.ub)
 =============================================================================
